@@ -26,6 +26,13 @@ RULE = ("the REAL apps/nsqd binary (built -tags verif from the repository under 
         "is nsqd.dat the same inode with the same bytes, is the first still where it was, does a third daemon start after everything was killed and serve what nsqd.dat holds. "
         "(e) forced schedule: a channel deletion that completes while the persist of its own Notify goroutine - snapshot taken BEFORE the removal - still holds the NSQD lock "
         "(deleter held at before-remove until that persist has written / fsynced its temp file, the persist held there until the channel left the map; 3 variants: idle kill, kill right after the answer with a paused sibling channel, holder parked after fsync). "
+        "(f) forced schedules 'a change whose own metadata write meets a busy NSQD lock' (13 fixed + 40 generated per quick run): after 1-6 settled prefix requests (creations, pause flips, deletions, ephemeral channels; idle after each; 30% "
+        "followed by an idle kill and restart so that the state comes from LoadMetadata) a HOLDER request H and a VICTIM request V of the same sequential client: the Notify goroutine(s) of H (topic creation, channel creation, "
+        "channel deletion, deletion of a topic with its channels) are parked at notify:before-send until V has passed its lookups; V (creation of a channel, parked in Topic.GetChannel before the topic lock; pause/unpause of a topic or channel - "
+        "always the flip that changes the flag -, parked in doPause before the flag store) waits until H has written its temp file, i.e. H's snapshot predates V's change; H stays at persist:after-tmp-write / after-fsync / after-rename, holding "
+        "the lock, until V's own write is at the lock (lookupLoop has received V's Notify event / the handler is at pause:before-lock); second template: the holder writes nothing - GetTopic creating an EPHEMERAL topic parked inside the NSQD lock "
+        "until the Notify goroutine of an earlier topic/channel creation is at the lock. Killed after exact idleness (65%) or right after V's answer; all hit counters are computed by the generator; a wait that ran into the hook's cap is counted "
+        "(driver stat forced_schedule_waits_expired, 0 expected); skipped with a stat when the tree under test lacks the hooks. "
         "A case is non-trivial when at least one request was sent / a file was present; distinct = distinct recorded histories.")
 TRUSTED = [
     "modelled, not verified: the Go scheduler, sync.RWMutex (NSQD.Lock excludes other lockers; RLock blocks while a writer holds it), atomic flag stores, "
@@ -33,7 +40,9 @@ TRUSTED = [
     "(rename is atomic with respect to readers and to SIGKILL), SIGKILL = loss of process state only",
     "hooks (build tag verif, no-op without it): verifPoint calls in PersistMetadata/writeSyncFile, DeleteExistingTopic/Channel, Notify; /repo/nsqd/verif_meta.go "
     "(status socket with the hit counters; NSQ_VERIF_HOLD makes a point wait for pending Notify goroutines; NSQ_VERIF_WAIT makes the k-th hit of a point wait for a counter, at most 10 s - "
-    "used to pin the K8 schedule, the stale-persist deletion schedule and the phases of the data-path lock cases, exit:topics-closed in NSQD.Exit included); NSQ_VERIF_KILL from verif_points.go",
+    "used to pin the K8 schedule, the stale-persist deletion schedule and the phases of the data-path lock cases, exit:topics-closed in NSQD.Exit included); NSQ_VERIF_KILL from verif_points.go; "
+    "for the busy-lock schedules also verifPoint in Topic.GetChannel (before the topic lock), lookupLoop (Notify event received), Topic/Channel.doPause (before the flag store), doPauseTopic/doPauseChannel (before the NSQD lock): "
+    "'V's write is at the lock' is established from the last hook BEFORE the Lock call (a few instructions earlier; the holder then still has to fsync/rename), so a missed overlap is possible in principle - it makes the run an ordinary legal schedule, never a false alarm",
     "data-path lock cases: the phase of the first daemon is established from the status socket counters and its log lines (QUEUESCAN: closing = exitChan is closed; NSQ: stopping subsystems / NSQ: bye not yet printed); "
     "flock(2) itself (one owner per directory, LOCK_NB fails when held, dropped by the kernel with the last descriptor) is MODELLED in model/PathLock.v, not verified",
     "strace output parsing and /stats JSON parsing in the driver; the driver's client is sequential (one request in flight), which is what makes the live history schedule-independent for the judge",
@@ -80,5 +89,6 @@ def drivers():
         n = (300 if tier == "quick" else 3000) * scale
         nl = (40 if tier == "quick" else 400) * scale
         nf = (10 if tier == "quick" else 100) * scale
-        return ["-n", str(n), "-nload", str(nl), "-nfault", str(nf), "-seed", str(seed)]
+        nfo = (40 if tier == "quick" else 400) * scale
+        return ["-n", str(n), "-nload", str(nl), "-nfault", str(nf), "-nforced", str(nfo), "-seed", str(seed)]
     return [{"driver": "metadrive", "args": args, "replay_args": lambda tier: []}]
